@@ -59,6 +59,8 @@ def gen_case(seed):
             opts.append("compress=true")
     ncol = rng.randint(1, 4)
     kinds = [rng.choice(["number", "unsigned", "float", "symbol", "symbol", "P", "L", "A"]) for _ in range(ncol)]
+    if fmt in ("json-list", "json-object", "sqlite") and rng.random() < 0.85:
+        kinds = [("P" if k == "A" else k) for k in kinds]      # ADT columns are a recorded finding for these formats: keep most cases free of them
     if fmt == "delim" and any(k in ("P", "L", "A") for k in kinds) and (" " in delim or "," in delim):
         # records and ADTs are written as `[1, a]` / `$B(1, a)`: a delimiter made of ',' or ' ' cannot be told from their own
         # punctuation, so the text format cannot represent these signatures with such a delimiter
@@ -247,8 +249,8 @@ def worker(arg):
 
 def check(tier, seed):
     t = pc.trees("plain", "san")
-    n = 1500 if tier == "quick" else 15000
-    nsan = 100 if tier == "quick" else 1000
+    n = 900 if tier == "quick" else 15000
+    nsan = 50 if tier == "quick" else 1000
     res = Result("exploration")
     res.rule = RULE
     base = seed * 1000000 + (0 if tier == "quick" else 100000) + 170000
